@@ -129,6 +129,14 @@ Proof. vm_compute. reflexivity. Qed.
 
 (* the table for the correspondence check *)
 Definition se_string (s : string) : sexp := se_text (ts s).
+(* the same with the read sets restricted to the variables in ws - the ones something writes after initialisation
+   according to the analysis of /repo: a variable nothing writes can be read by any number of goroutines, so reading one
+   more or one fewer of those (a new lookup table, say) is not a difference between the code and this table *)
+Definition se_table_on (ws : list text) : sexp :=
+  L (map (fun o => L [se_string (fp_name o);
+                      L (map se_string (filter (fun g => existsb (text_eqb (ts g)) ws) (fp_reads o)));
+                      L (map se_string (fp_writes o));
+                      L (map (fun n => A (Z.of_nat n)) (fp_params o))]) table).
 Definition se_table : sexp :=
   L (map (fun o => L [se_string (fp_name o); L (map se_string (fp_reads o)); L (map se_string (fp_writes o));
                       L (map (fun n => A (Z.of_nat n)) (fp_params o))]) table).
